@@ -261,6 +261,13 @@ def depends_on(fn, e, pred, depth=3):
             if v in seen:
                 continue
             seen.add(v)
+            if v.startswith("$ret@"):
+                # the value of an absorbed helper: it depends on what the helper was given
+                for c in fn.call_nodes():
+                    if c.ev["x"].get("fn") == v[5:]:
+                        for a in c.ev["x"].get("a", []):
+                            if rec(a, d - 1):
+                                return True
             for n in fn.events("S"):
                 if T.path(n.ev["lhs"]) == v and T.strip(n.ev["lhs"]).get("k") == "v" and isinstance(n.ev.get("rhs"), dict):
                     if rec(n.ev["rhs"], d - 1):
